@@ -1,9 +1,10 @@
 (* The pattern parser of the model on the grammar of literals, alternation and (capturing and
    non-capturing) groups, nested to any depth:
 
-     regexp ::= branch ( '|' branch )*        branch ::= ( run | group | qchar )*
+     regexp ::= branch ( '|' branch )*        branch ::= ( run | group | qchar | dot )*
      group  ::= '(' regexp ')' | '(?:' regexp ')'      run ::= ordinary characters
      qchar  ::= ordinary character ( '?' | '*' | '+' | '{n}' | '{n,}' | '{n,m}' ) [ '?' ]
+     dot    ::= '.' [ ( '?' | '*' | '+' | '{n}' | '{n,}' | '{n,m}' ) [ '?' ] ]     (flag s decides what it matches)
    and, under XPath, the anchors '^' and '$' as pieces of a branch.
 
    Grammar trees [branch] / [alt] are printed to pattern text by [show_b] / [show_a]; they have a
@@ -13,7 +14,7 @@
    Proofs/GroupSpec.v proves the same of the specification's parser and semantics, and joins them. *)
 From RX Require Import Base.Prelude Base.InvList Tables.Consts Model.Case Model.Op Model.Engine Model.Matcher
      Model.Compiler Spec.Syntax Spec.Sem Proofs.EngineFacts Proofs.LowerFacts Proofs.QuantLaws Proofs.FixedFacts Proofs.OrderFacts Proofs.OrderFixed
-     Proofs.PlainPattern Proofs.FrameFacts.
+     Proofs.PlainPattern Proofs.FrameFacts Proofs.InvListFacts Proofs.SmallFacts.
 
 (* ---------------------------------------------------------------- grammar trees *)
 (* a counted quantifier {n}, {n,} or {n,m}: the bounds as they are written, in decimal digits *)
@@ -47,6 +48,7 @@ Inductive branch :=
 | BGrp (cs : list N) (cap : bool) (a : alt) (b : branch)   (* a run, possibly empty, a group, the rest *)
 | BQ (cs : list N) (c : N) (k : qk) (rel : bool) (b : branch)   (* a run, a quantified character, the rest *)
 | BAn (cs : list N) (eol : bool) (b : branch)               (* a run, '^' or '$' (XPath), the rest *)
+| BD (cs : list N) (q : option (qk * bool)) (b : branch)    (* a run, '.', possibly quantified (kind, reluctant?), the rest *)
 with alt :=
 | AOne (b : branch)
 | ACons (b : branch) (a : alt).
@@ -55,18 +57,25 @@ Scheme branch_mind := Induction for branch Sort Prop
   with alt_mind := Induction for alt Sort Prop.
 Combined Scheme branch_alt_ind from branch_mind, alt_mind.
 
+Definition qtext (q : option (qk * bool)) : list N :=
+  match q with Some (k, rel) => qsym k :: qtl k ++ (if rel then [63%N] else []) | None => [] end.
+
 Fixpoint show_b (b : branch) : list N :=
   match b with
   | BEnd cs => cs
   | BGrp cs cap a b' => cs ++ 40%N :: (if cap then [] else [63%N; 58%N]) ++ show_a a ++ 41%N :: show_b b'
   | BQ cs c k rel b' => cs ++ c :: qsym k :: qtl k ++ (if rel then [63%N] else []) ++ show_b b'
   | BAn cs eol b' => cs ++ (if eol then 36%N else 94%N) :: show_b b'
+  | BD cs q b' => cs ++ 46%N :: qtext q ++ show_b b'
   end
 with show_a (a : alt) : list N :=
   match a with
   | AOne b => show_b b
   | ACons b a' => show_b b ++ 124%N :: show_a a'
   end.
+
+Definition okqq (xpath : bool) (q : option (qk * bool)) : bool :=
+  match q with Some (k, rel) => (negb rel || xpath) && okq k | None => true end.
 
 (* runs are made of ordinary characters; '(?:' exists under XPath only *)
 Fixpoint ok_b (xpath : bool) (b : branch) : bool :=
@@ -75,6 +84,7 @@ Fixpoint ok_b (xpath : bool) (b : branch) : bool :=
   | BGrp cs cap a b' => forallb ordinary cs && (cap || xpath) && ok_a xpath a && ok_b xpath b'
   | BQ cs c k rel b' => forallb ordinary cs && ordinary c && (negb rel || xpath) && okq k && ok_b xpath b'
   | BAn cs eol b' => forallb ordinary cs && xpath && ok_b xpath b'
+  | BD cs q b' => forallb ordinary cs && okqq xpath q && ok_b xpath b'
   end
 with ok_a (xpath : bool) (a : alt) : bool :=
   match a with
@@ -131,21 +141,21 @@ Definition term_a (post : list N) : Prop := post = [] \/ exists t, post = 41%N :
 Definition head_fine (l : list N) : Prop :=
   match l with
   | [] => True
-  | c :: _ => ordinary c = true \/ c = 40%N \/ c = 41%N \/ c = 124%N \/ c = 94%N \/ c = 36%N
+  | c :: _ => ordinary c = true \/ c = 40%N \/ c = 41%N \/ c = 124%N \/ c = 94%N \/ c = 36%N \/ c = 46%N
   end.
 
 (* ... in particular *)
 Lemma head_fine_nq c t : head_fine (c :: t) ->
   (c =? 63 = false /\ c =? 42 = false /\ c =? 43 = false /\ c =? 123 = false)%N.
 Proof.
-  cbn. intros [Ho|[->|[->|[->|[->| ->]]]]]; try (repeat split; reflexivity).
+  cbn. intros [Ho|[->|[->|[->|[->|[->| ->]]]]]]; try (repeat split; reflexivity).
   destruct (ordinary_tests c Ho) as (_ & _ & _ & _ & _ & T6 & _ & _ & _ & _ & _ & T12 & T13 & T14).
   cbv delta [c_lbrace c_qmark c_star c_plus] in *. auto.
 Qed.
 
 Lemma head_fine_b xpath b post : ok_b xpath b = true -> term_b post -> head_fine (show_b b ++ post).
 Proof.
-  intros Hok Ht. destruct b as [cs|cs cap a b'|cs c0 k rel b'|cs eol b']; cbn [show_b ok_b] in *.
+  intros Hok Ht. destruct b as [cs|cs cap a b'|cs c0 k rel b'|cs eol b'|cs q b']; cbn [show_b ok_b] in *.
   - destruct cs as [|c t]; cbn [app].
     + destruct Ht as [->|(t & [->| ->])]; cbn; auto.
     + cbn [forallb] in Hok. apply andb_true_iff in Hok as [Hc _]. cbn. auto.
@@ -154,6 +164,8 @@ Proof.
   - do 4 (apply andb_true_iff in Hok as [Hok ?]). destruct cs as [|c t]; cbn [app]; [cbn; auto|].
     cbn [forallb] in Hok. apply andb_true_iff in Hok as [Hc _]. cbn. auto.
   - do 2 (apply andb_true_iff in Hok as [Hok ?]). destruct cs as [|c t]; cbn [app]; [destruct eol; cbn; auto 10|].
+    cbn [forallb] in Hok. apply andb_true_iff in Hok as [Hc _]. cbn. auto.
+  - do 2 (apply andb_true_iff in Hok as [Hok ?]). destruct cs as [|c t]; cbn [app]; [cbn; auto 10|].
     cbn [forallb] in Hok. apply andb_true_iff in Hok as [Hc _]. cbn. auto.
 Qed.
 
@@ -168,7 +180,7 @@ Qed.
 (* ---------------------------------------------------------------- denotation *)
 Section Den.
 Variable input : list N.
-Variable ci multi : bool.
+Variable ci multi single : bool.
 Let n := length input.
 
 Definition lit (cs : list N) (p : nat) : list nat :=
@@ -176,9 +188,14 @@ Definition lit (cs : list N) (p : nat) : list nat :=
   else if starts_with (ceq ci) cs (skipn p input) then [p + length cs] else [].
 
 (* a quantified character means what the specification says of it; flags other than i play no part *)
-Definition fl_of : sflags := {| s_i := ci; s_m := multi; s_s := false; s_x := false; s_q := false |}.
+Definition fl_of : sflags := {| s_i := ci; s_m := multi; s_s := single; s_x := false; s_q := false |}.
 Definition Dq (c : N) (k : qk) (rel : bool) (p : nat) : list nat :=
   ends fl_of input (RQuant (RChar c) (qmin k) (qmaxo k) (negb rel)) p.
+
+(* the regular expression a (possibly quantified) dot stands for; its meaning is the specification's (flag s) *)
+Definition dot_re (q : option (qk * bool)) : re :=
+  match q with Some (k, rel) => RQuant RDot (qmin k) (qmaxo k) (negb rel) | None => RDot end.
+Definition Dd (q : option (qk * bool)) (p : nat) : list nat := ends fl_of input (dot_re q) p.
 
 (* an anchor holds where the specification says it does (flag m) *)
 Definition Dan (eol : bool) (p : nat) : list nat := ends fl_of input (if eol then REol else RBol) p.
@@ -189,6 +206,7 @@ Fixpoint Db (b : branch) (p : nat) : list nat :=
   | BGrp cs cap a b' => flat_map (Db b') (flat_map (Da a) (lit cs p))
   | BQ cs c k rel b' => flat_map (Db b') (flat_map (Dq c k rel) (lit cs p))
   | BAn cs eol b' => flat_map (Db b') (flat_map (Dan eol) (lit cs p))
+  | BD cs q b' => flat_map (Db b') (flat_map (Dd q) (lit cs p))
   end
 with Da (a : alt) (p : nat) : list nat :=
   match a with
@@ -202,12 +220,14 @@ Definition DqO (c : N) (k : qk) (rel : bool) (p : nat) : list nat :=
   map fst (Sem.R fl_of input (RQuant (RChar c) (qmin k) (qmaxo k) (negb rel)) p []).
 Definition DanO (eol : bool) (p : nat) : list nat :=
   map fst (Sem.R fl_of input (if eol then REol else RBol) p []).
+Definition DdO (q : option (qk * bool)) (p : nat) : list nat := map fst (Sem.R fl_of input (dot_re q) p []).
 Fixpoint DbO (b : branch) (p : nat) : list nat :=
   match b with
   | BEnd cs => lit cs p
   | BGrp cs cap a b' => flat_map (DbO b') (flat_map (DaO a) (lit cs p))
   | BQ cs c k rel b' => flat_map (DbO b') (flat_map (DqO c k rel) (lit cs p))
   | BAn cs eol b' => flat_map (DbO b') (flat_map (DanO eol) (lit cs p))
+  | BD cs q b' => flat_map (DbO b') (flat_map (DdO q) (lit cs p))
   end
 with DaO (a : alt) (p : nat) : list nat :=
   match a with
@@ -234,7 +254,18 @@ Lemma Dan_le eol p q : p <= n -> In q (Dan eol p) -> q <= n.
 Proof.
   intros Hp H. unfold Dan in H. eapply (ends_le fl_of input); [|exact Hp|exact H]. destruct eol; exact I.
 Qed.
+Lemma Dd_le xpath q p m : okqq xpath q = true -> p <= n -> In m (Dd q p) -> m <= n.
+Proof.
+  intros Hk Hp H. unfold Dd in H. eapply (ends_le fl_of input); [|exact Hp|exact H].
+  destruct q as [[k rel]|]; cbn [dot_re quant_wf]; [|exact I]. split; [exact I|].
+  cbn [okqq] in Hk. apply andb_true_iff in Hk as [_ Hk]. apply (okq_facts k Hk).
+Qed.
 End Den.
+
+(* an input is a string of code points (what a Rust &str holds) *)
+Definition valid_in (input : list N) : Prop := forall c, In c input -> (c <= max_cp)%N.
+Lemma valid_nil : valid_in [].
+Proof. intros c []. Qed.
 
 Lemma skipn_add {A} (l : list A) : forall x y, skipn x (skipn y l) = skipn (x + y) l.
 Proof.
@@ -259,6 +290,7 @@ Let R (o : op) : nat -> list nat := Rop input ci multi o.
 Let Ro (c : option op) (p : nat) : list nat := match c with Some o => R o p | None => [p] end.
 Let goodo (c : option op) : Prop := match c with Some o => good o | None => True end.
 Hypothesis Hfit : (N.of_nat n < umax)%N.
+Hypothesis Hvalid : valid_in input.
 
 (* positions in the pattern text *)
 Lemma at_skipn i : at_ pat i = hd_error (skipn i pat).
@@ -287,7 +319,7 @@ Proof. intros H. unfold is_at. rewrite at_skipn, H. reflexivity. Qed.
 Definition stops (l : list N) : Prop :=
   match l with
   | [] => True
-  | c :: _ => c = 40%N \/ c = 41%N \/ c = 124%N \/ (xpath = true /\ (c = 94%N \/ c = 36%N))
+  | c :: _ => c = 40%N \/ c = 41%N \/ c = 124%N \/ c = 46%N \/ (xpath = true /\ (c = 94%N \/ c = 36%N))
   end.
 
 (* what the scanner does at such a character *)
@@ -301,7 +333,7 @@ Lemma stops_tests c t : stops (c :: t) ->
         else if (((c =? c_caret) || (c =? c_dollar)) && xpath)%N then x
         else v) = x.
 Proof.
-  cbn. intros [->|[->|[->|(Hx & [->| ->])]]]; (split; [reflexivity|]); intros A x y z w v; try reflexivity;
+  cbn. intros [->|[->|[->|[->|(Hx & [->| ->])]]]]; (split; [reflexivity|]); intros A x y z w v; try reflexivity;
     rewrite Hx; reflexivity.
 Qed.
 
@@ -371,7 +403,7 @@ Proof.
     + rewrite at_skipn, Hs1, Hb.
       assert (Hq : match (cs ++ post) with [] => True | c :: _ => is_quant c = false end).
       { destruct cs as [|c2 cs2]; cbn [app].
-        - destruct post as [|c2 t2]; auto. cbn in Hst. destruct Hst as [->|[->|[->|(_ & [->| ->])]]]; reflexivity.
+        - destruct post as [|c2 t2]; auto. cbn in Hst. destruct Hst as [->|[->|[->|[->|(_ & [->| ->])]]]]; reflexivity.
         - cbn [forallb] in Ho. apply andb_true_iff in Ho as [Oc2 _]. apply ordinary_not_quant. exact Oc2. }
       destruct (cs ++ post) as [|c2 t2]; cbn [hd_error].
       * apply skipn_nil_len in Hs1; [|lia]. apply Nat.ltb_lt in L1. lia.
@@ -593,7 +625,7 @@ Proof. reflexivity. Qed.
 
 (* --- a run of ordinary characters is one piece --- *)
 Lemma stops_head_fine post : stops post -> head_fine post.
-Proof. destruct post as [|c t]; cbn; auto. intros [H|[H|[H|(_ & [H|H])]]]; auto 10. Qed.
+Proof. destruct post as [|c t]; cbn; auto. intros [H|[H|[H|[H|(_ & [H|H])]]]]; auto 10. Qed.
 
 Lemma skipn_len_le i (x y : list N) : skipn i pat = x ++ y -> i <= len -> i + length x + length y = len.
 Proof.
@@ -677,8 +709,9 @@ Qed.
 
 
 (* --- a quantified character --- *)
-Definition qop (c : N) (k : qk) (rel : bool) : op :=
-  (if rel then ORFixed else OGFixed) (OAtom [c]) (qmin k) (qmax k) 1%N.
+Definition qopr (ret : op) (k : qk) (rel : bool) : op :=
+  (if rel then ORFixed else OGFixed) ret (qmin k) (qmax k) 1%N.
+Definition qop (c : N) (k : qk) (rel : bool) : op := qopr (OAtom [c]) k rel.
 
 (* --- the digits of a counted quantifier --- *)
 Lemma digits_run : forall ds f i acc x t, forallb is_digit ds = true -> is_digit x = false ->
@@ -766,12 +799,13 @@ Qed.
 Definition st_after (k : nat) (st st' : cst) : Prop :=
   idx st' = idx st + k /\ parens st' = parens st /\ hasbr st' = hasbr st /\ captures st' = captures st.
 
-Lemma quantify_char c k rel st rest : negb rel || xpath = true -> okq k = true -> head_fine rest ->
+Lemma quantify_fixed1 ret k rel st rest : is_bol_eol ret = false -> mes ret = zls_never -> match_length ret = Some 1%N ->
+  negb rel || xpath = true -> okq k = true -> head_fine rest ->
   skipn (idx st) pat = qsym k :: qtl k ++ (if rel then [63%N] else []) ++ rest -> idx st <= len ->
-  exists st', quantify pat xpath (OAtom [c]) st = Ok (qop c k rel, st')
+  exists st', quantify pat xpath ret st = Ok (qopr ret k rel, st')
     /\ st_after (1 + length (qtl k) + (if rel then 1 else 0)) st st'.
 Proof.
-  intros Hx Hk Hh Hs Hi. destruct (skipn_step _ _ _ Hs) as [Hs1 Hlt].
+  intros Hbe Hmes Hml Hx Hk Hh Hs Hi. destruct (skipn_step _ _ _ Hs) as [Hs1 Hlt].
   unfold quantify. fold len.
   replace (Nat.leb len (idx st)) with false by (symmetry; apply Nat.leb_gt; lia).
   rewrite (at_skipn (idx st)), Hs. cbn [hd_error].
@@ -791,9 +825,9 @@ Proof.
         rewrite H, andb_false_r. reflexivity. }
   destruct k as [| | |ds m].
   1-3: cbn [qsym qtl app length] in *; cbv [c_qmark c_star c_plus c_lbrace]; cbn [N.eqb Pos.eqb orb rbind];
-    cbn [is_bol_eol mes]; change (zls_never =? zls_any)%N with false; cbv iota; cbn [rbind];
+    rewrite Hbe, Hmes; change (zls_never =? zls_any)%N with false; cbv iota; cbn [rbind];
     rewrite (G (adv 1 st)) by (unfold adv, set_idx; cbn [idx]; first [exact Hs1|lia]); cbn [rbind];
-    destruct rel; (eexists; split; [reflexivity|]); unfold st_after, adv, set_idx; cbn [idx parens hasbr captures];
+    rewrite Hml; destruct rel; (eexists; split; [reflexivity|]); unfold st_after, adv, set_idx; cbn [idx parens hasbr captures];
     repeat split; lia.
   (* a counted quantifier *)
   cbn [qsym] in *. change (123 =? c_qmark)%N with false. change (123 =? c_star)%N with false.
@@ -801,7 +835,7 @@ Proof.
   rewrite (bracket_run st ds m _ Hk Hs Hi). cbn [rbind].
   set (st1 := {| idx := idx st + 1 + length (qtl (QBr ds m)); parens := parens st; bmin := dec ds;
                  bmax := qmax (QBr ds m); captures := captures st; hasbr := hasbr st |}).
-  cbn [is_bol_eol mes]. change (zls_never =? zls_any)%N with false. cbv iota. cbn [rbind].
+  rewrite Hbe, Hmes. change (zls_never =? zls_any)%N with false. cbv iota. cbn [rbind].
   assert (Hs2 : skipn (idx st1) pat = (if rel then [63%N] else []) ++ rest).
   { subst st1. cbn [idx]. rewrite <- Nat.add_assoc. replace (1 + length (qtl (QBr ds m))) with (length (123%N :: qtl (QBr ds m))) by reflexivity.
     apply skipn_app_len. rewrite Hs. reflexivity. }
@@ -814,10 +848,15 @@ Proof.
   replace (bmin (if rel then adv 1 st1 else st1)) with (qmin (QBr ds m)) by (destruct rel; reflexivity).
   replace (bmax (if rel then adv 1 st1 else st1)) with (qmax (QBr ds m)) by (destruct rel; reflexivity).
   replace (qmax (QBr ds m) =? 0)%N with false by (symmetry; apply N.eqb_neq; lia).
-  rewrite N11. cbn [match_length opt_N_eqb]. 
+  rewrite N11, Hml. cbn [opt_N_eqb]. change (1 =? 0)%N with false. change (0 <? 1)%N with true. cbv iota.
   destruct rel; (eexists; split; [cbn [negb]; reflexivity|]);
   unfold st_after; subst st1; unfold adv, set_idx; cbn [idx parens hasbr captures]; repeat split; lia.
 Qed.
+Lemma quantify_char c k rel st rest : negb rel || xpath = true -> okq k = true -> head_fine rest ->
+  skipn (idx st) pat = qsym k :: qtl k ++ (if rel then [63%N] else []) ++ rest -> idx st <= len ->
+  exists st', quantify pat xpath (OAtom [c]) st = Ok (qop c k rel, st')
+    /\ st_after (1 + length (qtl k) + (if rel then 1 else 0)) st st'.
+Proof. exact (quantify_fixed1 (OAtom [c]) k rel st rest eq_refl eq_refl eq_refl). Qed.
 
 Lemma piece_runq f st c0 cs c k t : forallb ordinary (c0 :: cs) = true -> ordinary c = true ->
   skipn (idx st) pat = (c0 :: cs) ++ c :: qsym k :: t -> idx st <= len ->
@@ -869,10 +908,10 @@ Proof.
   destruct rel; cbn [simple]; (split; [exact I|split; [reflexivity|exact H]]).
 Qed.
 
-Lemma qop_sem c k rel p q : okq k = true -> p <= n -> (In q (R (qop c k rel) p) <-> In q (Dq input ci multi c k rel p)).
+Lemma qop_sem c k rel p q : okq k = true -> p <= n -> (In q (R (qop c k rel) p) <-> In q (Dq input ci multi single c k rel p)).
 Proof.
   intros Hk Hp. unfold R, Dq. destruct (okq_facts k Hk) as (Pos & Le & Mx & Wf & _).
-  apply (lowersq_ends input ci multi false K (fl_of ci multi) eq_refl eq_refl Hfit); auto.
+  apply (lowersq_ends input ci multi false K (fl_of ci multi single) eq_refl eq_refl Hfit); auto.
   - (* plainq *)
     assert (H : forall p0 q0, In q0 (Rop input ci multi (OAtom [c]) p0) -> q0 = p0 + N.to_nat 1).
     { intros p0 q0. cbn [Rop length]. destruct (Nat.ltb (length input) (p0 + 1)); [intros []|].
@@ -921,10 +960,10 @@ Proof.
   - apply R_make_sequence_eq; auto.
   - cbn [flat_map]. rewrite app_nil_r. reflexivity.
 Qed.
-Lemma qop_eq c k rel p : okq k = true -> p <= n -> R (qop c k rel) p = DqO input ci multi c k rel p.
+Lemma qop_eq c k rel p : okq k = true -> p <= n -> R (qop c k rel) p = DqO input ci multi single c k rel p.
 Proof.
   intros Hk Hp. unfold R, DqO. symmetry. destruct (okq_facts k Hk) as (Pos & Le & Mx & Wf & _).
-  apply (lowerso_order input ci multi false K (fl_of ci multi) eq_refl eq_refl Hfit); auto.
+  apply (lowerso_order input ci multi false K (fl_of ci multi single) eq_refl eq_refl Hfit); auto.
   - assert (H : forall p0, Rop input ci multi (OAtom [c]) p0 = [] \/ Rop input ci multi (OAtom [c]) p0 = [p0 + N.to_nat 1]).
     { intros p0. cbn [Rop length]. destruct (Nat.ltb (length input) (p0 + 1)); [left; reflexivity|].
       destruct (starts_with _ _ _); [right|left]; reflexivity. }
@@ -933,10 +972,88 @@ Proof.
   - unfold qop. destruct rel; cbn [lowerso unnc negb]; exists (RChar c);
       (split; [rewrite Mx; reflexivity|]); right; exists c; split; reflexivity.
 Qed.
-Lemma anchor_eq (eol : bool) p : p <= n -> R (if eol then OEol else OBol) p = DanO input ci multi eol p.
+Lemma anchor_eq (eol : bool) p : p <= n -> R (if eol then OEol else OBol) p = DanO input ci multi single eol p.
 Proof.
   intros Hp. unfold R, DanO. symmetry.
-  apply (lowers_order input ci multi false K (fl_of ci multi) eq_refl eq_refl); auto; destruct eol; cbn; auto.
+  apply (lowers_order input ci multi false K (fl_of ci multi single) eq_refl eq_refl); auto; destruct eol; cbn; auto.
+Qed.
+
+(* --- a dot, possibly quantified --- *)
+Definition dset : cset := if single then all else dot_set.
+Definition dop (q : option (qk * bool)) : op :=
+  match q with Some (k, rel) => qopr (OCls dset) k rel | None => OCls dset end.
+
+Lemma dset_spec c : In c input -> mem dset c = dot_mem (fl_of ci multi single) c.
+Proof.
+  intros Hc. apply Hvalid in Hc. unfold dset, dot_mem. cbn [s_s fl_of]. destruct single; cbn [orb].
+  - apply mem_all. exact Hc.
+  - apply dot_spec. exact Hc.
+Qed.
+
+Lemma piece_dot f st q rest : okqq xpath q = true -> head_fine rest ->
+  skipn (idx st) pat = 46%N :: qtext q ++ rest -> idx st <= len ->
+  exists st', piece pat xpath ci single (S (S f)) st = Ok (dop q, st') /\ st_after (1 + length (qtext q)) st st'.
+Proof.
+  intros Hk Hh Hs Hi. destruct (skipn_step _ _ _ Hs) as [Hs1 Hlt].
+  rewrite piece_S, parse_terminal_S, (at_skipn (idx st)), Hs. cbn [hd_error].
+  change (46 =? c_dollar)%N with false. change (46 =? c_caret)%N with false. change (46 =? c_dot)%N with true.
+  cbn [andb]. cbv iota. cbn [rbind]. fold dset.
+  destruct q as [[k rel]|]; cbn [qtext dop okqq] in *.
+  - apply andb_true_iff in Hk as [Hx Hk].
+    destruct (quantify_fixed1 (OCls dset) k rel (adv 1 st) rest eq_refl eq_refl eq_refl Hx Hk Hh) as (st' & E & A1 & A2 & A3 & A4).
+    + unfold adv, set_idx. cbn [idx]. rewrite Hs1. cbn [app]. rewrite <- app_assoc. reflexivity.
+    + unfold adv, set_idx. cbn [idx]. lia.
+    + exists st'. split; [exact E|]. unfold adv, set_idx in *. cbn [idx parens hasbr captures] in *.
+      unfold st_after. cbn [length]. rewrite app_length. destruct rel; cbn [length] in *; repeat split; try lia; assumption.
+  - exists (adv 1 st). split.
+    + apply quantify_none; [unfold adv, set_idx; cbn [idx]; lia|]. unfold adv, set_idx. cbn [idx]. rewrite Hs1. exact Hh.
+    + unfold st_after, adv, set_idx. cbn [idx parens hasbr captures length]. repeat split; lia.
+Qed.
+
+Lemma dcls_one p : R (OCls dset) p = [] \/ R (OCls dset) p = [p + N.to_nat 1].
+Proof.
+  unfold R. cbn [Rop]. destruct (nth_error input p); [|left; reflexivity].
+  destruct (mem dset n0); [right; change (N.to_nat 1) with 1; rewrite Nat.add_1_r; reflexivity|left; reflexivity].
+Qed.
+Lemma dop_good q : good (dop q).
+Proof.
+  unfold good. destruct q as [[k rel]|]; cbn [dop]; [|exact I].
+  assert (H : forall p m, In m (Rop input ci multi (OCls dset) p) -> m = p + N.to_nat 1).
+  { intros p m Hm. destruct (dcls_one p) as [E|E]; unfold R in E; rewrite E in Hm; [destruct Hm|destruct Hm as [<-|[]]; reflexivity]. }
+  unfold qopr. destruct rel; cbn [simple]; (split; [exact I|split; [reflexivity|exact H]]).
+Qed.
+Lemma dleaf : exists pr, leaf_pred ci (fl_of ci multi single) RDot = Some pr /\ forall c, In c input -> mem dset c = pr c.
+Proof. eexists. split; [reflexivity|]. exact dset_spec. Qed.
+Lemma dop_sem q p m : okqq xpath q = true -> p <= n -> (In m (R (dop q) p) <-> In m (Dd input ci multi single q p)).
+Proof.
+  intros Hk Hp. unfold R, Dd.
+  apply (lowersq_ends input ci multi false K (fl_of ci multi single) eq_refl eq_refl Hfit); auto.
+  - (* plainq *) destruct q as [[k rel]|]; cbn [dop]; [|exact I].
+    cbn [okqq] in Hk. apply andb_true_iff in Hk as [_ Hk]. destruct (okq_facts k Hk) as (Pos & Le & Mx & Wf & _).
+    assert (H : forall p0 q0, In q0 (Rop input ci multi (OCls dset) p0) -> q0 = p0 + N.to_nat 1).
+    { intros p0 q0 Hq0. destruct (dcls_one p0) as [E|E]; unfold R in E; rewrite E in Hq0; [destruct Hq0|destruct Hq0 as [<-|[]]; reflexivity]. }
+    unfold qopr. destruct rel; cbn [plainq]; (split; [exact I|]); (split; [reflexivity|]);
+      (split; [exact Pos|]); (split; [exact Le|exact H]).
+  - destruct q as [[k rel]|]; cbn [dot_re quant_wf]; [|exact I]. split; [exact I|].
+    cbn [okqq] in Hk. apply andb_true_iff in Hk as [_ Hk]. apply (okq_facts k Hk).
+  - destruct q as [[k rel]|]; cbn [dop dot_re].
+    + cbn [okqq] in Hk. apply andb_true_iff in Hk as [_ Hk]. destruct (okq_facts k Hk) as (_ & _ & Mx & _ & _).
+      unfold qopr. destruct rel; cbn [lowersq unnc negb]; [exists RDot, false|exists RDot, true];
+        (split; [rewrite Mx; reflexivity|]); exact dleaf.
+    + cbn [lowersq unnc]. exact dleaf.
+Qed.
+Lemma dop_eq q p : okqq xpath q = true -> p <= n -> R (dop q) p = DdO input ci multi single q p.
+Proof.
+  intros Hk Hp. unfold R, DdO. symmetry.
+  apply (lowerso_order input ci multi false K (fl_of ci multi single) eq_refl eq_refl Hfit); auto.
+  - destruct q as [[k rel]|]; cbn [dop]; [|exact I].
+    cbn [okqq] in Hk. apply andb_true_iff in Hk as [_ Hk]. destruct (okq_facts k Hk) as (Pos & Le & Mx & Wf & _).
+    unfold qopr. destruct rel; cbn [plaino]; (split; [exact I|]); (split; [reflexivity|]);
+      (split; [exact Pos|]); (split; [exact Le|exact dcls_one]).
+  - destruct q as [[k rel]|]; cbn [dop dot_re].
+    + cbn [okqq] in Hk. apply andb_true_iff in Hk as [_ Hk]. destruct (okq_facts k Hk) as (_ & _ & Mx & _ & _).
+      unfold qopr. destruct rel; cbn [lowerso unnc negb]; exists RDot; (split; [rewrite Mx; reflexivity|]); exact dleaf.
+    + cbn [lowerso unnc]. exact dleaf.
 Qed.
 
 Lemma good_choice bs : Forall good bs -> good (OChoice bs).
@@ -979,10 +1096,10 @@ Qed.
 
 Lemma anchor_good (eol : bool) : good (if eol then OEol else OBol).
 Proof. destruct eol; exact I. Qed.
-Lemma anchor_sem (eol : bool) p q : p <= n -> (In q (R (if eol then OEol else OBol) p) <-> In q (Dan input ci multi eol p)).
+Lemma anchor_sem (eol : bool) p q : p <= n -> (In q (R (if eol then OEol else OBol) p) <-> In q (Dan input ci multi single eol p)).
 Proof.
   intros Hp. unfold R, Dan.
-  apply (lowersq_ends input ci multi false K (fl_of ci multi) eq_refl eq_refl Hfit); auto; destruct eol; cbn; auto.
+  apply (lowersq_ends input ci multi false K (fl_of ci multi single) eq_refl eq_refl Hfit); auto; destruct eol; cbn; auto.
 Qed.
 
 Lemma alt_op_eq bs p : bs <> [] -> R (alt_op bs) p = flat_map (fun x => R x p) (rev bs).
@@ -998,9 +1115,9 @@ Definition P_b (b : branch) : Prop :=
     6 * length (show_b b) + 6 <= fuel -> goodo cur ->
     exists r st', branch_loop pat xpath ci single fuel st cur = Ok (r, st')
       /\ idx st' = idx st + length (show_b b) /\ hasbr st' = hasbr st /\ goodo r
-      /\ (forall p q, p <= n -> (In q (Ro r p) <-> exists m, In m (Ro cur p) /\ In q (Db input ci multi b m)))
+      /\ (forall p q, p <= n -> (In q (Ro r p) <-> exists m, In m (Ro cur p) /\ In q (Db input ci multi single b m)))
       /\ (1 <= parens st -> fro cur -> fro r /\ parens st <= parens st')
-      /\ (forall p, p <= n -> Ro r p = flat_map (DbO input ci multi b) (Ro cur p)).
+      /\ (forall p, p <= n -> Ro r p = flat_map (DbO input ci multi single b) (Ro cur p)).
 
 Definition P_a (a : alt) : Prop :=
   ok_a xpath a = true -> forall post st acc f1 f2,
@@ -1010,14 +1127,14 @@ Definition P_a (a : alt) : Prop :=
       /\ branches_loop pat xpath ci single f2 st1 (o :: acc) = Ok (bs, st')
       /\ idx st' = idx st + length (show_a a) /\ hasbr st' = hasbr st /\ Forall good bs /\ bs <> []
       /\ (forall p q, p <= n -> ((exists x, In x bs /\ In q (R x p))
-                                  <-> (exists x, In x acc /\ In q (R x p)) \/ In q (Da input ci multi a p)))
+                                  <-> (exists x, In x acc /\ In q (R x p)) \/ In q (Da input ci multi single a p)))
       /\ (1 <= parens st -> Forall framed acc -> Forall framed bs /\ parens st <= parens st')
       /\ (forall p, p <= n -> flat_map (fun x => R x p) (rev bs)
-                               = flat_map (fun x => R x p) (rev acc) ++ DaO input ci multi a p).
+                               = flat_map (fun x => R x p) (rev acc) ++ DaO input ci multi single a p).
 
 (* a run (possibly empty) before a group: parsed into the current term, the loop goes on *)
 Lemma run_prefix cs post st cur fuel : forallb ordinary cs = true ->
-  (exists c t, post = c :: t /\ (c = 40%N \/ (xpath = true /\ (c = 94%N \/ c = 36%N)))) ->
+  (exists c t, post = c :: t /\ (c = 40%N \/ c = 46%N \/ (xpath = true /\ (c = 94%N \/ c = 36%N)))) ->
   skipn (idx st) pat = cs ++ post -> idx st <= len -> 3 <= fuel -> goodo cur ->
   exists fuel' cur1 st1, fuel <= fuel' + 1 /\ fuel' <= fuel
     /\ branch_loop pat xpath ci single fuel st cur = branch_loop pat xpath ci single fuel' st1 cur1
@@ -1027,7 +1144,7 @@ Lemma run_prefix cs post st cur fuel : forallb ordinary cs = true ->
     /\ (forall p, p <= n -> Ro cur1 p = flat_map (lit input ci cs) (Ro cur p)).
 Proof.
   intros Ho (c1 & t & -> & Hc1) Hs Hi Hf Hg.
-  assert (Hst1 : stops (c1 :: t)) by (cbn; destruct Hc1 as [->|(Hx & Hc1)]; auto).
+  assert (Hst1 : stops (c1 :: t)) by (cbn; destruct Hc1 as [->|[->|(Hx & Hc1)]]; auto 10).
   destruct cs as [|c cs].
   - exists fuel, cur, st. split; [lia|]. split; [lia|]. split; [reflexivity|]. split; [cbn [length]; lia|].
     split; [reflexivity|]. split; [exact Hg|].
@@ -1133,9 +1250,9 @@ Proof.
     destruct (skipn_step _ _ _ Hs1) as [Hs2 Hlt1].
     assert (Hexpr : exists o st4, parse_expr pat xpath ci single (S f4) false st1 = Ok (o, st4)
               /\ idx st4 = idx st1 + 1 + length opt + length inner + 1 /\ hasbr st4 = hasbr st1 /\ good o
-              /\ (forall p q, p <= n -> (In q (R o p) <-> In q (Da input ci multi a p)))
+              /\ (forall p q, p <= n -> (In q (R o p) <-> In q (Da input ci multi single a p)))
               /\ (1 <= parens st1 -> framed o /\ parens st1 <= parens st4)
-              /\ (forall p, p <= n -> R o p = DaO input ci multi a p)).
+              /\ (forall p, p <= n -> R o p = DaO input ci multi single a p)).
     { rewrite parse_expr_grp_S. cbv zeta. rewrite at_skipn, Hs1. cbn [hd_error]. change (40 =? c_lparen)%N with true. cbv iota.
       assert (Hopen : exists paren group st2,
                 (if Nat.ltb (idx st1 + 2) len && is_at pat (idx st1 + 1) c_qmark && is_at pat (idx st1 + 2) c_colon
@@ -1173,9 +1290,9 @@ Proof.
       destruct (skipn_step _ _ _ Hs3) as [_ Hlt3].
       replace (Nat.ltb (idx st3) len) with true by (symmetry; apply Nat.ltb_lt; exact Hlt3).
       rewrite (is_at_hd _ _ _ c_rparen Hs3). change (41 =? c_rparen)%N with true. cbn [andb].
-      assert (EqO : forall p, p <= n -> R (alt_op bs) p = DaO input ci multi a p).
+      assert (EqO : forall p, p <= n -> R (alt_op bs) p = DaO input ci multi single a p).
       { intros p Hp. rewrite (alt_op_eq bs p Nbs), (EqA p Hp). reflexivity. }
-      assert (SemA : forall p q, p <= n -> (In q (R (alt_op bs) p) <-> In q (Da input ci multi a p))).
+      assert (SemA : forall p q, p <= n -> (In q (R (alt_op bs) p) <-> In q (Da input ci multi single a p))).
       { intros p q Hp. rewrite (alt_op_sem bs p q Nbs), (Sem p q Hp). split; [intros [(x & [] & _)|H]; exact H|auto]. }
       destruct cap.
       - eexists _, _. split; [reflexivity|]. unfold adv, set_idx. cbn [idx hasbr parens]. split; [lia|]. split; [congruence|].
@@ -1294,8 +1411,8 @@ Proof.
     assert (Hlen : idx st + (length cs + (1 + (length rest + length post))) = len).
     { pose proof (skipn_length (idx st) pat) as L. rewrite Hs in L. fold len in L.
       rewrite app_length in L. cbn [length] in L. rewrite app_length in L. lia. }
-    assert (Hfol : exists c t, (if eol then 36%N else 94%N) :: rest ++ post = c :: t /\ (c = 40%N \/ (xpath = true /\ (c = 94%N \/ c = 36%N)))).
-    { exists (if eol then 36%N else 94%N), (rest ++ post). split; [reflexivity|]. right. split; [exact Hx|]. destruct eol; auto. }
+    assert (Hfol : exists c t, (if eol then 36%N else 94%N) :: rest ++ post = c :: t /\ (c = 40%N \/ c = 46%N \/ (xpath = true /\ (c = 94%N \/ c = 36%N)))).
+    { exists (if eol then 36%N else 94%N), (rest ++ post). split; [reflexivity|]. right. right. split; [exact Hx|]. destruct eol; auto. }
     destruct (run_prefix cs ((if eol then 36%N else 94%N) :: rest ++ post) st cur fuel Ocs Hfol Hs Hi ltac:(lia) Hg)
       as (fuel1 & cur1 & st1 & Hf1 & Hf1' & Eloop & Hi1 & Hb1 & Hg1 & Sem1 & Hp1 & Fr1 & Eq1).
     rewrite Eloop.
@@ -1336,6 +1453,62 @@ Proof.
       exists m. split; [|exact Hq]. apply push_sem; auto using anchor_good. exists m1. split.
       * apply (Sem1 p m1 Hp). eauto.
       * apply anchor_sem; [|exact Hm]. apply (lit_le input ci cs m0 m1) in Hm1. lia.
+  - (* BD *) intros cs q b' IHb Hok post st cur fuel Hs Hi Ht Hf Hg.
+    cbn [ok_b] in Hok. apply andb_true_iff in Hok as [Hok Okb]. apply andb_true_iff in Hok as [Ocs Hkq].
+    cbn [show_b] in Hs, Hf |- *.
+    set (rest := show_b b') in *. set (qt := qtext q) in *.
+    assert (Lsh : length (cs ++ 46%N :: qt ++ rest) = length cs + 1 + length qt + length rest) by (rewrite app_length; cbn [length]; rewrite app_length; lia).
+    rewrite Lsh in Hf |- *.
+    assert (Hs' : skipn (idx st) pat = cs ++ 46%N :: qt ++ rest ++ post).
+    { rewrite Hs, <- app_assoc. cbn [app]. rewrite <- app_assoc. reflexivity. }
+    clear Hs. rename Hs' into Hs.
+    assert (Hlen : idx st + (length cs + (1 + (length qt + (length rest + length post)))) = len).
+    { pose proof (skipn_length (idx st) pat) as L. rewrite Hs in L. fold len in L.
+      rewrite app_length in L. cbn [length] in L. rewrite !app_length in L. lia. }
+    assert (Hfol : exists c t, 46%N :: qt ++ rest ++ post = c :: t /\ (c = 40%N \/ c = 46%N \/ (xpath = true /\ (c = 94%N \/ c = 36%N)))).
+    { eexists _, _. split; [reflexivity|]. auto. }
+    destruct (run_prefix cs (46%N :: qt ++ rest ++ post) st cur fuel Ocs Hfol Hs Hi ltac:(lia) Hg)
+      as (fuel1 & cur1 & st1 & Hf1 & Hf1' & Eloop & Hi1 & Hb1 & Hg1 & Sem1 & Hp1 & Fr1 & Eq1).
+    rewrite Eloop.
+    pose proof (skipn_app_len _ _ _ Hs) as Hs1. rewrite <- Hi1 in Hs1.
+    assert (Hi1' : idx st1 <= len) by lia.
+    destruct fuel1 as [|[|[|f]]]; try lia.
+    destruct (skipn_step _ _ _ Hs1) as [_ Hlt1].
+    assert (Hh : head_fine (rest ++ post)) by (apply (head_fine_b xpath); auto).
+    rewrite branch_loop_S. fold len.
+    replace (Nat.ltb (idx st1) len) with true by (symmetry; apply Nat.ltb_lt; exact Hlt1).
+    rewrite (is_at_hd _ _ _ c_bar Hs1), (is_at_hd _ _ _ c_rparen Hs1).
+    change (46 =? c_bar)%N with false. change (46 =? c_rparen)%N with false. cbn [negb andb].
+    destruct (piece_dot f st1 q (rest ++ post) Hkq Hh Hs1 Hi1') as (st2 & Ep & Hi2 & Hp2 & Hb2 & _).
+    rewrite Ep. cbn [rbind]. fold (push cur1 (dop q)). fold qt in Hi2.
+    assert (Hs2 : skipn (idx st2) pat = rest ++ post).
+    { rewrite Hi2. replace (1 + length qt) with (length (46%N :: qt)) by reflexivity.
+      apply (skipn_app_len (idx st1) (46%N :: qt)). rewrite Hs1. reflexivity. }
+    destruct (IHb Okb post st2 (push cur1 (dop q)) (S (S f)) Hs2 ltac:(lia) Ht ltac:(fold rest; lia)
+                (push_good _ _ Hg1 (dop_good q)))
+      as (r & st' & E & Hi' & Hb' & Gr & Sem' & Fr' & Eq').
+    exists r, st'. split; [exact E|]. fold rest in Hi'. split; [lia|].
+    split; [rewrite Hb', Hb2; exact Hb1|]. split; [exact Gr|].
+    split.
+    2:{ split.
+        - intros H1 Hfr.
+          assert (Fq : framed (dop q)) by (destruct q as [[k rel]|]; [unfold dop, qopr; destruct rel; exact I|exact I]).
+          destruct (Fr' ltac:(lia) (push_fr _ _ (Fr1 Hfr) Fq)) as [Fr Hp'].
+          split; [exact Fr|]. lia.
+        - intros p Hp. rewrite (Eq' p Hp), (push_eq cur1 (dop q) p Hg1 (dop_good q)), (Eq1 p Hp). cbn [DbO].
+          rewrite !flat_map_assoc. apply fm_ext_in. intros m Hm. rewrite <- flat_map_assoc. f_equal.
+          apply fm_ext_in. intros k0 Hk0. apply dop_eq; [exact Hkq|]. apply lit_le in Hk0. tauto. }
+    intros p m Hp. rewrite (Sem' p m Hp). cbn [Db]. split.
+    + intros (m2 & Hm2 & Hq). apply push_sem in Hm2; auto using dop_good. destruct Hm2 as (m1 & Hm1 & Hm2).
+      apply (Sem1 p m1 Hp) in Hm1. destruct Hm1 as (m0 & Hm0 & Hm1).
+      exists m0. split; [exact Hm0|]. apply in_flat_map. exists m2. split; [|exact Hq].
+      apply in_flat_map. exists m1. split; [exact Hm1|].
+      apply dop_sem; [exact Hkq| |exact Hm2]. apply (lit_le input ci cs m0 m1) in Hm1. lia.
+    + intros (m0 & Hm0 & Hq). apply in_flat_map in Hq. destruct Hq as (m2 & Hm2 & Hq).
+      apply in_flat_map in Hm2. destruct Hm2 as (m1 & Hm1 & Hm2).
+      exists m2. split; [|exact Hq]. apply push_sem; auto using dop_good. exists m1. split.
+      * apply (Sem1 p m1 Hp). eauto.
+      * apply dop_sem; [exact Hkq| |exact Hm2]. apply (lit_le input ci cs m0 m1) in Hm1. lia.
   - (* AOne *) intros b IHb Hok post st acc f1 f2 Hs Hi Ht Hf1 Hf2 Hacc. cbn [show_a ok_a] in *.
     destruct f1 as [|f1]; [lia|]. destruct f2 as [|f2]; [lia|].
     assert (Htb : term_b post) by (destruct Ht as [->|(t & ->)]; [left; auto|right; eauto]).
@@ -1354,12 +1527,12 @@ Proof.
     2:{ split.
         - intros H1 Hacc'. destruct (Frb H1 I) as [Fr Hp']. split; [|exact Hp'].
           constructor; [|exact Hacc']. subst o. destruct r; [exact Fr|exact I].
-        - intros p Hp. change (DaO input ci multi (AOne b) p) with (DbO input ci multi b p).
+        - intros p Hp. change (DaO input ci multi single (AOne b) p) with (DbO input ci multi single b p).
           cbn [rev]. rewrite flat_map_app. cbn [flat_map]. rewrite app_nil_r. f_equal.
           pose proof (Eqb p Hp) as Eo. cbn [Ro flat_map] in Eo. rewrite app_nil_r in Eo. rewrite <- Eo.
           subst o. destruct r; reflexivity. }
     intros p q Hp.
-    assert (So : In q (R o p) <-> In q (Db input ci multi b p)).
+    assert (So : In q (R o p) <-> In q (Db input ci multi single b p)).
     { subst o. pose proof (Sem p q Hp) as S0. destruct r as [c|]; cbn [Ro] in S0; [|change (R ONothing p) with [p]]; rewrite S0;
         (split; [intros (m & [<-|[]] & H); exact H|intros H; exists p; cbn; auto]). }
     cbn [Da]. split.
@@ -1393,13 +1566,13 @@ Proof.
           unfold adv, set_idx in FrA. cbn [parens] in FrA.
           destruct (FrA ltac:(lia) ltac:(constructor; auto)) as [Fbs Hp2]. split; [exact Fbs|lia].
         - intros p Hp. rewrite (EqA p Hp).
-          change (DaO input ci multi (ACons b a') p) with (DbO input ci multi b p ++ DaO input ci multi a' p).
+          change (DaO input ci multi single (ACons b a') p) with (DbO input ci multi single b p ++ DaO input ci multi single a' p).
           cbn [rev]. rewrite flat_map_app. cbn [flat_map]. rewrite app_nil_r, <- app_assoc.
           f_equal. f_equal.
           pose proof (Eqb p Hp) as Eo. cbn [Ro flat_map] in Eo. rewrite app_nil_r in Eo. rewrite <- Eo.
           subst o. destruct r; reflexivity. }
     intros p q Hp.
-    assert (So : In q (R o p) <-> In q (Db input ci multi b p)).
+    assert (So : In q (R o p) <-> In q (Db input ci multi single b p)).
     { subst o. pose proof (Sem p q Hp) as S0. destruct r as [c|]; cbn [Ro] in S0; [|change (R ONothing p) with [p]]; rewrite S0;
         (split; [intros (m & [<-|[]] & H); exact H|intros H; exists p; cbn; auto]). }
     rewrite (Sem2 p q Hp). cbn [Da]. rewrite in_app_iff. split.
@@ -1407,18 +1580,22 @@ Proof.
     + intros [(x & Hx & Hq)|[Hq|Hq]]; [left; exists x; split; [right; exact Hx|exact Hq]|left; exists o; split; [left; reflexivity|apply So; exact Hq]|right; exact Hq].
 Qed.
 
-Lemma DqO_le c k rel p q : okq k = true -> p <= n -> In q (DqO input ci multi c k rel p) -> q <= n.
+Lemma DqO_le c k rel p q : okq k = true -> p <= n -> In q (DqO input ci multi single c k rel p) -> q <= n.
 Proof.
   intros Hk Hp H. rewrite <- qop_eq in H by assumption. eapply (Rop_le_n input ci multi false K); [apply qop_good|exact Hp|exact H].
 Qed.
-Lemma DanO_le (eol : bool) p q : p <= n -> In q (DanO input ci multi eol p) -> q <= n.
+Lemma DdO_le q0 p q : okqq xpath q0 = true -> p <= n -> In q (DdO input ci multi single q0 p) -> q <= n.
+Proof.
+  intros Hk Hp H. rewrite <- dop_eq in H by assumption. eapply (Rop_le_n input ci multi false K); [apply dop_good|exact Hp|exact H].
+Qed.
+Lemma DanO_le (eol : bool) p q : p <= n -> In q (DanO input ci multi single eol p) -> q <= n.
 Proof.
   intros Hp H. rewrite <- anchor_eq in H by exact Hp. eapply (Rop_le_n input ci multi false K); [apply anchor_good|exact Hp|exact H].
 Qed.
 
 (* the ordered denotation stays inside the input *)
-Lemma DO_le : (forall b, ok_b xpath b = true -> forall p q, p <= n -> In q (DbO input ci multi b p) -> q <= n)
-           /\ (forall a, ok_a xpath a = true -> forall p q, p <= n -> In q (DaO input ci multi a p) -> q <= n).
+Lemma DO_le : (forall b, ok_b xpath b = true -> forall p q, p <= n -> In q (DbO input ci multi single b p) -> q <= n)
+           /\ (forall a, ok_a xpath a = true -> forall p q, p <= n -> In q (DaO input ci multi single a p) -> q <= n).
 Proof.
   apply branch_alt_ind.
   - intros cs _ p q Hp H. cbn [DbO] in H. apply lit_le in H. tauto.
@@ -1433,6 +1610,10 @@ Proof.
     cbn [DbO] in H. apply in_flat_map in H as (m & Hm & H).
     apply in_flat_map in Hm as (m1 & Hm1 & Hm). apply lit_le in Hm1. eapply (IHb Okb); [|exact H].
     rewrite <- anchor_eq in Hm by tauto. eapply (Rop_le_n input ci multi false K); [apply anchor_good| |exact Hm]. tauto.
+  - intros cs q0 b IHb Hok p q Hp H. cbn [ok_b] in Hok. apply andb_true_iff in Hok as [Hok Okb].
+    apply andb_true_iff in Hok as [_ Hkq]. cbn [DbO] in H. apply in_flat_map in H as (m & Hm & H).
+    apply in_flat_map in Hm as (m1 & Hm1 & Hm). apply lit_le in Hm1. eapply (IHb Okb); [|exact H].
+    eapply DdO_le; [exact Hkq| |exact Hm]. tauto.
   - intros b IHb Hok p q Hp H. exact (IHb Hok p q Hp H).
   - intros b IHb a IHa Hok p q Hp H. cbn [ok_a] in Hok. apply andb_true_iff in Hok as [Okb Oka].
     cbn [DaO] in H. apply in_app_iff in H as [H|H]; eauto.
@@ -1442,9 +1623,9 @@ Qed.
 Theorem parse_expr_grammar a : ok_a xpath a = true -> pat = show_a a ->
   exists top st', parse_expr pat xpath ci single (8 * len + 16) true st_init = Ok (top, st')
     /\ idx st' = len /\ hasbr st' = false /\ good top
-    /\ (forall p q, p <= n -> (In q (R top p) <-> In q (Da input ci multi a p)))
+    /\ (forall p q, p <= n -> (In q (R top p) <-> In q (Da input ci multi single a p)))
     /\ framed top
-    /\ (forall p, p <= n -> R top p = DaO input ci multi a p)
+    /\ (forall p, p <= n -> R top p = DaO input ci multi single a p)
     /\ 1 <= parens st'.
 Proof.
   intros Hok Hpat. destruct model_parses as [_ PA].
